@@ -374,6 +374,71 @@ fn run_history(x: u32, link_split: bool, evs: Vec<Ev>) -> (HistOut, usize, usize
     (out, held, multi)
 }
 
+
+// ---------------------------------------------------------------------------------------------------------
+// Part T: the receiving side with transactions.  A transactional post is a transfer frame like any other for
+// clause 3 ("next-incoming-id advances once per frame received"); on a listener that supports transactions
+// the posts take a different path through the session (they are held back until the discharge).  The scripted
+// client of C18 (series S2) is reused with a session probe: after every event it asks for the session state
+// and the listener's answer must report next-incoming-id = number of transfer frames the client has sent.
+
+const T_ALPHABET: [crate::c18::common::Ev; 7] = [
+    crate::c18::common::Ev::Declare,
+    crate::c18::common::Ev::Post { link: 1, txn: 1 },
+    crate::c18::common::Ev::Post { link: 2, txn: 1 },
+    crate::c18::common::Ev::Post { link: 1, txn: 0 },
+    crate::c18::common::Ev::Commit(1),
+    crate::c18::common::Ev::Rollback(1),
+    crate::c18::common::Ev::Post { link: 2, txn: 0 },
+];
+
+fn run_txn_history(h: &[usize]) -> HistOut {
+    let evs: Vec<crate::c18::common::Ev> = h.iter().map(|i| T_ALPHABET[*i]).collect();
+    let scen: Scenario<crate::c18::Obs> = {
+        let evs = evs.clone();
+        Arc::new(move || Box::pin(crate::c18::s2::scenario_probed(evs.clone(), false, true)))
+    };
+    let ex = run_exec(vec![], &RunCfg::none(), &scen);
+    let mut out = HistOut::default();
+    match ex.out {
+        None => {
+            out.executed = h.len();
+            out.machinery = Some(format!("part T: scenario died (watchdog={}) panics {:?}", ex.watchdog, ex.panics));
+        }
+        Some(o) => {
+            out.executed = o.executed;
+            out.trace = o.trace.clone();
+            out.machinery = o.machinery.clone();
+            // the C18 verdicts of this scenario are C18's business; only the session accounting is judged here
+            let mut key = vec![];
+            for (i, name, answer, sent) in &o.session_probes {
+                key.push((*sent, answer.map(|a| a.unwrap_or(u32::MAX))));
+                match answer {
+                    None => {
+                        // echo is a SHOULD: no answer, nothing to judge (counted, so that the part cannot go vacuous)
+                        continue;
+                    }
+                    Some(n) if *n != Some(*sent) => {
+                        let posts = o.txn_posts;
+                        out.fails.push((
+                            "reported-next-incoming-id (transactional posts on a listener)".into(),
+                            format!(
+                                "after event {} ({name}) the listener reports next-incoming-id {:?}; the client started at 0 and has sent {sent} transfer frames ({posts} transactional posts so far in this history)",
+                                i + 1,
+                                n
+                            ),
+                        ));
+                        break;
+                    }
+                    _ => {}
+                }
+            }
+            out.state_keys = (0..=o.executed).map(|k| vlib::util::h64(&(k.min(key.len()), key.iter().take(k).collect::<Vec<_>>()))).collect();
+        }
+    }
+    out
+}
+
 pub fn run(ctx: &Ctx) -> Outcome {
     let mut out = Outcome::new("model_checking");
     if let Some(p) = &ctx.replay {
@@ -427,6 +492,20 @@ pub fn run(ctx: &Ctx) -> Outcome {
             samples.extend(st.sample_traces.into_iter().take(1));
         }
     }
+    // ---- part T
+    let t_depth = if ctx.quick() { 4 } else { 5 };
+    let st = search(T_ALPHABET.len(), t_depth, ctx.threads, deadline + Duration::from_secs(120), run_txn_history);
+    executions += st.executions;
+    truncated |= st.truncated;
+    for m in st.machinery {
+        out.machinery_errors.push(m);
+    }
+    for (h, sig, detail, trace) in st.violations {
+        let evs: Vec<String> = h.iter().map(|i| crate::c18::common::ev_name(crate::c18::common::Series::S2, T_ALPHABET[*i])).collect();
+        out.violation(sig, format!("history {:?}: {detail}", evs), json!({"part": "T", "events": h, "event_names": evs, "trace": trace}));
+    }
+    out.set("txn_listener_histories_executed", st.executions);
+    let t_note = format!("; part T (listener with transactions, scripted client): histories of depth {t_depth} over {} events, the session state probed after every event", T_ALPHABET.len());
     out.set("states", states.max(1));
     out.set("transitions", transitions.max(1));
     out.set("traces_validated_against_impl", executions);
@@ -434,7 +513,7 @@ pub fn run(ctx: &Ctx) -> Outcome {
     out.set("steps_with_multi_frame_deliveries", multi.load(std::sync::atomic::Ordering::Relaxed) as u64);
     out.set("samples", json!(samples));
     out.set("exhaustive", !truncated);
-    out.set("bound", format!("histories of depth {depth} over {} events x initial next-outgoing-ids {:?}(+ the same depth from 0 and 4294967294 with the sender's max-message-size 200: the link, not the transport, splits the big message); peer's initial incoming-window 2; every history ends with the window reopened to 10000{extra_note}", ALPHABET.len(), xs));
+    out.set("bound", format!("histories of depth {depth} over {} events x initial next-outgoing-ids {:?}(+ the same depth from 0 and 4294967294 with the sender's max-message-size 200: the link, not the transport, splits the big message); peer's initial incoming-window 2; every history ends with the window reopened to 10000{extra_note}{t_note}", ALPHABET.len(), xs));
     out.set("rule", "states = distinct (transfer frames sent, window left, messages waiting, transfers received) at quiescence; every state reached by executing the real session, link and connection engines against the scripted peer");
     out.assume("the scripted peer acts at quiescent points; a frame is judged against the last flow (or the begin) the peer sent before the step in which the frame was written");
     out
@@ -444,6 +523,24 @@ fn replay(p: &std::path::Path, mut out: Outcome) -> Outcome {
     let s = std::fs::read_to_string(p).unwrap_or_default();
     let j: serde_json::Value = serde_json::from_str(&s).unwrap_or_default();
     let r = &j["replay"];
+    if r["part"] == "T" {
+        let h: Vec<usize> = r["events"].as_array().map(|a| a.iter().filter_map(|v| v.as_u64()).map(|i| i as usize % T_ALPHABET.len()).collect()).unwrap_or_default();
+        let o = run_txn_history(&h);
+        for l in &o.trace {
+            println!("  {l}");
+        }
+        if let Some(m) = o.machinery {
+            out.machinery_errors.push(m);
+        }
+        for (s, d) in o.fails {
+            println!("  FAIL {s}: {d}");
+            out.violation(s, d, r.clone());
+        }
+        out.set("states", 1);
+        out.set("transitions", 1);
+        out.set("traces_validated_against_impl", 1);
+        return out;
+    }
     let x = r["x"].as_u64().unwrap_or(0) as u32;
     let evs: Vec<Ev> = r["events"].as_array().map(|a| a.iter().filter_map(|v| v.as_u64()).map(|i| ALPHABET[i as usize]).collect()).unwrap_or_default();
     println!("replaying x={x} {:?}", evs);
